@@ -81,7 +81,11 @@ def probe_sessions(seed, names):
                     bad.append(f"coefficient sweep ETDRK{order}{k} at z={f64['sweep']['z'][zi]}: single {c32} vs double {c64} "
                                f"differ by {d:.2e} (> {COEF_TOL:g}): the contour passes too close to the removable singularity")
                 # the double-precision value against the exact phi-combination is the C02 check's business
-    for name in names:
+    for name, r in f64.get("exact", {}).items():
+        if r["err"] > 1e-11 * r["scale"] + r["rounding_allowance"]:
+            bad.append(f"{name}: the x64-session step is off the closed-form solution by {r['err']:.3e} (scale {r['scale']:.3e}, D={r['D']}, N={r['N']}) — "
+                       f"far above double rounding ({1e-11 * r['scale'] + r['rounding_allowance']:.1e}): the float64 result silently carries another precision")
+    for name in list(names) + ["Wave"]:
         a, b = f32["steppers"][name], f64["steppers"][name]
         if a["out_dtype"] != "float32" or b["out_dtype"] != "float64":
             bad.append(f"{name}: output dtype {a['out_dtype']} (default session) / {b['out_dtype']} (x64 session)")
